@@ -26,7 +26,8 @@ CONSTANTS MaxLen,     \* protocol shapes of length 1..MaxLen
           Apis,       \* subset of {"cppw", "cppr", "pyw", "pyr"}
           Ctx         \* how many trailing calls of the history distinguish states in the VIEW (history context per exported test)
 
-VARIABLES api, shape,
+VARIABLES errs,       \* calls rejected so far: an error does not end the history (the property speaks of all finite call sequences)
+          api, shape,
           pos,        \* abstract: index (0-based) of the step in progress / next; N = complete
           left,       \* abstract (readers): items of the current stream step not yet delivered
           begun,      \* abstract: the current stream step has been started (Python: iterable obtained / written at least once)
@@ -34,7 +35,7 @@ VARIABLES api, shape,
           drained,    \* implementation (C++ reader): unobserved completion, encoded in st as 2i+1
           hist, closed
 
-vars == <<api, shape, pos, left, begun, st, drained, hist, closed>>
+vars == <<errs, api, shape, pos, left, begun, st, drained, hist, closed>>
 
 N == Len(shape)
 dropped == api = "pyr" /\ drained           \* Python reader: the iterable of the current stream step was abandoned
@@ -46,7 +47,7 @@ Shapes(n) == IF n = 0 THEN {<<>>} ELSE { Append(s, b) : s \in Shapes(n - 1), b \
 AllShapes == UNION { Shapes(n) : n \in 1..MaxLen }
 
 Init == /\ api \in Apis /\ shape \in AllShapes
-        /\ pos = 0 /\ left = K /\ begun = FALSE /\ st = 0 /\ drained = FALSE /\ hist = <<>> /\ closed = FALSE
+        /\ pos = 0 /\ left = K /\ begun = FALSE /\ st = 0 /\ drained = FALSE /\ hist = <<>> /\ closed = FALSE /\ errs = 0
 
 Min(a, b) == IF a < b THEN a ELSE b
 
@@ -186,17 +187,21 @@ ImplPyR(c) ==         \* Python reader: read_x sets 2i+1 and returns a generator
 Impl(c) == CASE api = "cppw" -> ImplCppW(c) [] api = "cppr" -> ImplCppR(c) [] api = "pyw" -> ImplPyW(c) [] api = "pyr" -> ImplPyR(c)
 
 -----------------------------------------------------------------------------
+\* After a rejected call the abstract position is what it was, so every call that is out of order there is still out of order and
+\* must be rejected again ("Closing succeeds only when every step has been completed", whatever was tried before); whether a call
+\* that is in order is still served after an error is not specified, so such calls are not explored.  MaxErrs rejected calls per history.
+MaxErrs == 2
 Do(c) ==
   LET r == Req(c)
       m == Impl(c)
   IN /\ ~closed /\ r.v # "skip"
+     /\ (errs > 0 => r.v = "reject")
      /\ hist' = Append(hist, [call |-> c, allowed |-> r.v, model |-> m.ok, more |-> r.more, count |-> r.count])
      /\ IF m.ok /\ r.v # "reject"
         THEN /\ pos' = r.pos /\ left' = r.left /\ begun' = r.begun /\ st' = m.st
              /\ drained' = IF api = "pyr" THEN (c.op = "drop" \/ (drained /\ r.pos = pos)) ELSE m.drained
-             /\ closed' = (c.op = "close")
-        ELSE \* a rejected call ends the sequence (behaviour after an error is not specified)
-             /\ closed' = TRUE /\ UNCHANGED <<pos, left, begun, st, drained>>
+             /\ closed' = (c.op = "close") /\ UNCHANGED errs
+        ELSE /\ errs' = errs + 1 /\ closed' = (errs + 1 >= MaxErrs \/ r.v # "reject") /\ UNCHANGED <<pos, left, begun, st, drained>>
      /\ UNCHANGED <<api, shape>>
 
 Next == \E c \in Calls : Do(c)
@@ -208,10 +213,10 @@ Refines == \A i \in 1..Len(hist) :
              /\ hist[i].allowed = "reject" => ~hist[i].model
 
 Export == (hist # <<>>) => PrintT(<<"CASE", ToJson([api |-> api, shape |-> shape, k |-> K, hist |-> hist])>>)
-Depth == Len(hist) <= 2 * MaxLen + 4
+Depth == Len(hist) <= 2 * MaxLen + 4 + MaxErrs
 \* one representative (shortest) history per (reachable state, last call): the history itself is output only
 \* (an implementation can hold more state than the model - e.g. a flag that was not reset - so the same (state, call) is
 \* exported once per distinct recent history, not just once)
-View == <<api, shape, pos, left, begun, st, drained, closed,
+View == <<errs, api, shape, pos, left, begun, st, drained, closed,
           SubSeq(hist, IF Len(hist) > Ctx THEN Len(hist) - Ctx + 1 ELSE 1, Len(hist))>>
 =============================================================================
